@@ -39,8 +39,10 @@ def bootstrap():
     # before every monitored region, so finalisers run at step boundaries, the same ones in every mode.
     import gc
     gc.collect()
-    gc.freeze()
-    gc.disable()
+    if os.environ.get('VERIF_GC_FREEZE', '1') == '1':
+        gc.freeze()
+    if os.environ.get('VERIF_GC_AUTO') != '1':      # (VERIF_GC_AUTO=1: experiment switch, leaves the collector on)
+        gc.disable()
     return mpmath
 
 def pkg_dir():
